@@ -252,6 +252,30 @@ where
         if !ch.is_empty() || !rem.is_empty() {
             return Err("ChunkCount: N = 0 over an empty slice".into());
         }
+        // zero-length arrays still regroup one to one with [T; 0]: five of one are five of the other,
+        // at the same (aligned) address, in both directions and both mutabilities
+        let mut nat: [[T; K]; 5] = core::array::from_fn(|_| core::array::from_fn(|i| T::make(i as u8)));
+        let nbase = nat.as_ptr() as usize;
+        let g: &[GA<T, N>] = GA::<T, N>::from_chunks(&nat);
+        if g.len() != 5 || g.as_ptr() as usize != nbase {
+            return Err(format!("ChunkCount: from_chunks over 5 empty native arrays gives {} arrays at +{}", g.len(), (g.as_ptr() as usize).wrapping_sub(nbase)));
+        }
+        let back: &[[T; K]] = GA::<T, N>::into_chunks(g);
+        if back.len() != 5 || back.as_ptr() as usize != nbase {
+            return Err("ChunkCount: into_chunks is not the inverse of from_chunks for N = 0".into());
+        }
+        let flat = GA::<T, N>::slice_from_chunks(g);
+        if !flat.is_empty() {
+            return Err("ChunkCount: slice_from_chunks of empty arrays is not empty".into());
+        }
+        let gm: &mut [GA<T, N>] = GA::<T, N>::from_chunks_mut(&mut nat);
+        if gm.len() != 5 || gm.as_ptr() as usize != nbase {
+            return Err("ChunkCount: from_chunks_mut over 5 empty native arrays".into());
+        }
+        let bm: &mut [[T; K]] = GA::<T, N>::into_chunks_mut(gm);
+        if bm.len() != 5 || bm.as_ptr() as usize != nbase {
+            return Err("ChunkCount: into_chunks_mut for N = 0".into());
+        }
     }
     // rows: GenericArray<GenericArray<T, N>, U2>
     let mut rows: GA<GA<T, N>, U2> = GA::<GA<T, N>, U2>::generate(|i| GA::<T, N>::generate(|j| T::make((i * K + j) as u8)));
